@@ -30,9 +30,11 @@ pub fn entry() -> crate::Entry {
 }
 
 const PREFIX: &str = "mk_";
-const MARKERS: [&str; 5] = ["mk_ALPHA", "mk_BETA", "mk_GAMMA", "mk_DELTA", "mk_EPSILON"];
+const MARKERS: [&str; 6] = ["mk_ALPHA", "mk_BETA", "mk_GAMMA", "mk_DELTA", "mk_EPSILON", "mk_ZETA"];
 /// marker 4 is written as a rich text of two runs
 const RICH: u8 = 4;
+/// this marker reaches its cell as the cached text of a formula (written as a t="str" cell, never a shared string)
+const FTEXT: u8 = 5;
 const RICH_RUNS: [&str; 2] = ["mk_EPS", "ILON"];
 const SHEET1: &str = "Sheet1";
 const SHEET2: &str = "S2";
@@ -100,7 +102,7 @@ impl Op {
     }
     fn to_json(&self) -> Value {
         match *self {
-            Op::Set { h, row, m } => json!({"op":"set_text","handle":h,"cell":format!("A{}",row),"text":MARKERS[m as usize],"rich": m==RICH}),
+            Op::Set { h, row, m } => json!({"op":"set_text","handle":h,"cell":format!("A{}",row),"text":MARKERS[m as usize],"rich": m==RICH, "as_cached_text_of_a_formula": m==FTEXT}),
             Op::DelCell { h, row } => json!({"op":"remove_cell","handle":h,"cell":format!("A{}",row)}),
             Op::RemRow { h, row } => json!({"op":"remove_row","handle":h,"row":row}),
             Op::AddSheet { h, m } => json!({"op":"add_sheet_with_text","handle":h,"sheet":SHEET2,"cell":"A1","text":MARKERS[m as usize]}),
@@ -374,6 +376,9 @@ fn set_text(book: &mut Spreadsheet, sheet: usize, row: u32, m: u8) {
             rt.add_rich_text_elements(e);
         }
         cell.set_rich_text(rt);
+    } else if m == FTEXT {
+        cell.set_formula("B9&\"\"");
+        cell.set_formula_result_default(MARKERS[m as usize]);
     } else {
         cell.set_value_string(MARKERS[m as usize]);
     }
@@ -921,6 +926,8 @@ fn alpha(tier: Tier, id: &str) -> Option<Alpha> {
         ("tree", Tier::Thorough) => Some(Alpha { d: 6, markers: &[0, 1, 2, 3], sheet_markers: [0, 3] }),
         ("rich", Tier::Quick) => Some(Alpha { d: 4, markers: &[0, RICH], sheet_markers: [0, RICH] }),
         ("rich", Tier::Thorough) => Some(Alpha { d: 6, markers: &[0, RICH], sheet_markers: [0, RICH] }),
+        ("formula-text", Tier::Quick) => Some(Alpha { d: 4, markers: &[0, FTEXT], sheet_markers: [0, FTEXT] }),
+        ("formula-text", Tier::Thorough) => Some(Alpha { d: 5, markers: &[0, FTEXT], sheet_markers: [0, FTEXT] }),
         _ => None,
     }
 }
@@ -953,12 +960,13 @@ fn run(ctx: &Ctx) -> i32 {
     let ar = alpha(ctx.tier, "rich").unwrap();
     let tree = Tree::new(a);
     let rich = Tree::new(ar);
+    let ftext = Tree::new(alpha(ctx.tier, "formula-text").unwrap());
     let n_prefix = tree.prefixes.len();
     let n_prefix_rich = rich.prefixes.len();
     run_e1(
         ctx,
         E1Spec {
-            spaces: vec![("tree", Box::new(tree)), ("rich", Box::new(rich))],
+            spaces: vec![("tree", Box::new(tree)), ("rich", Box::new(rich)), ("formula-text", Box::new(ftext))],
             cfg: PoolCfg { chunk: 1, case_timeout: std::time::Duration::from_secs(60), ..Default::default() },
             level: "model_checking",
             rule: format!(
@@ -968,6 +976,7 @@ fn run(ctx: &Ctx) -> i32 {
             alphabets: json!({
                 "markers": a.markers.iter().map(|m| MARKERS[*m as usize]).collect::<Vec<_>>(),
                 "markers_rich_space": ar.markers.iter().map(|m| MARKERS[*m as usize]).collect::<Vec<_>>(),
+                "markers_formula_text_space": ["mk_ALPHA", "mk_ZETA (cached text of a formula)"],
                 "cells": ["Sheet1!A1", "Sheet1!A2", "S2!A1"],
                 "operations": ["set_text(h, A1|A2, marker)", "remove_cell(h, A1|A2)", "remove_row(h, 1|2)", "add_sheet_with_text(h, S2, marker in sheet_markers)", "remove_sheet(h, S2)", "clone(h)", "save(h)", "reload(h) = read_reader(save(h), eager)", "reload_lazy(h) = read_reader(save(h), lazy: sheets stay raw until touched and are written back verbatim)"],
                 "sheet_markers": a.sheet_markers.iter().map(|m| MARKERS[*m as usize]).collect::<Vec<_>>(),
